@@ -135,6 +135,9 @@ def run_shard(binary, prop, tier, seed, shard, nshards, outdir, extra_args, only
             if "WARNING: DATA RACE" in stderr_text:
                 res.deaths.append({"kind": "race-report", "stderr_path": errpath})
             return
+        if rc == 96:
+            res.inconclusive.append("shard %d: trial watchdog fired (inconclusive), see %s" % (shard, errpath))
+            return
         if rc == EXIT_HARNESS or "VERIF-HARNESS-BUG" in stderr_text and rc == EXIT_HARNESS:
             res.inconclusive.append("shard %d: harness bug, see %s" % (shard, errpath))
             return
@@ -154,6 +157,46 @@ def run_shard(binary, prop, tier, seed, shard, nshards, outdir, extra_args, only
         if len(skips) > 200:
             res.inconclusive.append("shard %d: more than 200 child deaths" % shard)
             return
+
+
+def _repo_frame(block_lines):
+    """innermost repository frame (function name) of one stack of a race report"""
+    for ln in block_lines:
+        ln = ln.strip()
+        if ln.startswith("github.com/pentops/j5/") and "/internal/verifh/" not in ln and ".Verif" not in ln:
+            name = ln.split("(")[0] if not ln.startswith("github.com/pentops/j5/lib") or True else ln
+            name = re.sub(r"\(\)$", "", ln)
+            name = re.sub(r"\.func\d+(\.\d+)*", "", name)
+            name = name.replace("github.com/pentops/j5/", "").replace("(*", "").replace(")", "")
+            name = re.sub(r"\(.*$", "", name)
+            return name
+    return "unknown"
+
+
+def collect_race_reports(outdir, merged):
+    """Parse the GORACE log files of all children; every report is a violation,
+    deduplicated by the (sorted) pair of innermost repository frames."""
+    import glob
+    total = 0
+    for path in sorted(glob.glob(os.path.join(outdir, "race.*"))):
+        text = open(path, "rb").read().decode("utf-8", "replace")
+        for rep in text.split("WARNING: DATA RACE")[1:]:
+            total += 1
+            rep = rep.split("==================")[0]
+            # stacks are separated by blank lines; the first two are the conflicting accesses
+            blocks = [b for b in re.split(r"\n\s*\n", rep.strip()) if b.strip()]
+            frames = []
+            for b in blocks[:2]:
+                frames.append(_repo_frame(b.split("\n")[1:]))
+            while len(frames) < 2:
+                frames.append("unknown")
+            sig = "race/" + "|".join(sorted(frames))
+            if sig in merged["violations"]:
+                merged["violations"][sig]["count"] += 1
+            else:
+                merged["violations"][sig] = {"sig": sig, "what": "the Go race detector reported a data race between %s and %s" % (frames[0], frames[1]),
+                                             "case_id": "", "case_n": 0, "count": 1, "detail": {"report": rep[:6000], "log": path}}
+    merged["monitor_events"]["race_reports"] = total
 
 
 def _limits():
@@ -223,7 +266,7 @@ def run_property(prop, tier, seed, only=None, replay_meta=None):
     env["VERIF_REPO_DIR"] = repo
     env["GOMAXPROCS"] = str(cfg.get("gomaxprocs", 2))
     if race:
-        env["GORACE"] = "halt_on_error=0 log_path=%s/race" % outdir
+        env["GORACE"] = "halt_on_error=0 exitcode=0 log_path=%s/race" % outdir
     extra_args = dict(cfg.get("args", {}))
     wall = cfg.get("wall_timeout", {"quick": 900, "thorough": 7200})[tier]
     results = [ShardResult() for _ in range(nshards)]
@@ -290,6 +333,8 @@ def run_property(prop, tier, seed, only=None, replay_meta=None):
             merged["violations"][sig] = {"sig": sig, "what": "value recorded for %s differs between worker processes: %s" % (
                 k, {v: sh for v, sh in vals.items()}), "case_id": cfg.get("xproc_case", {}).get(k, ""), "case_n": 0, "count": 1,
                 "detail": {"values": {v: sh for v, sh in vals.items()}}}
+    if race:
+        collect_race_reports(outdir, merged)
     hook = cfg.get("post")
     if hook:
         hook(merged, outdir, results, inconclusive)
